@@ -131,6 +131,85 @@ Proof.
       exists (0 :: ls). repeat split; try lia. constructor; auto.
 Qed.
 
+(* the groups of a match are determined by the per-item lengths *)
+Fixpoint spans_of (items : pattern) (ls : list nat) (pos g : nat) (st : list (nat * nat)) (cs : spans) : option res :=
+  match items, ls with
+  | [], [] => Some (pos, cs)
+  | Open :: r, _ :: ls' => spans_of r ls' pos (S g) ((g, pos) :: st) cs
+  | Close :: r, _ :: ls' =>
+      match st with (gi, s0) :: st' => spans_of r ls' pos g st' ((gi, s0, pos) :: cs) | [] => None end
+  | _ :: r, l :: ls' => spans_of r ls' (pos + l) g st cs
+  | _, _ => None
+  end.
+
+(* soundness with the trace: the reported end and groups are those of the per-item lengths *)
+Lemma bt_trace : forall items w av pos g st cs e cs',
+  bt items w av pos g st cs = Some (e, cs') ->
+  exists ls, pos <= e /\ e - pos <= av /\ e - pos <= length w /\ dm items (firstn (e - pos) w) ls /\
+             spans_of items ls pos g st cs = Some (e, cs').
+Proof.
+  induction items as [|it r IH]; intros w av pos g st cs e cs' H.
+  - rewrite bt_nil in H. inversion H; subst. exists []. rewrite Nat.sub_diag. cbn.
+    repeat split; try lia. constructor.
+  - destruct it as [c|c|c| |].
+    + rewrite bt_atom in H. destruct av as [|av']; [discriminate|].
+      destruct w as [|x w']; [discriminate|].
+      destruct (cmatch c (lcode x)) eqn:Hc; [|discriminate].
+      apply IH in H. destruct H as (ls & Hle & Hav & Hw & Hdm & Hsp).
+      exists (1 :: ls). cbn [length]. repeat split; try lia.
+      * replace (e - pos) with (S (e - S pos)) by lia. cbn. constructor; assumption.
+      * cbn [spans_of]. now rewrite Nat.add_1_r.
+    + (* StarG *)
+      assert (Hzero : forall w av pos, bt r w av pos g st cs = Some (e, cs') ->
+                exists ls, pos <= e /\ e - pos <= av /\ e - pos <= length w /\
+                           dm (StarG c :: r) (firstn (e - pos) w) ls /\
+                           spans_of (StarG c :: r) ls pos g st cs = Some (e, cs')).
+      { intros w0 av0 pos0 H0. apply IH in H0. destruct H0 as (ls & ? & ? & ? & Hdm & Hsp).
+        exists (0 :: ls); repeat split; try lia. apply (dm_starG c [] r _ ls); auto.
+        cbn [spans_of]. now rewrite Nat.add_0_r. }
+      revert av pos H. induction w as [|x w' IHw]; intros av pos H; rewrite bt_starG in H.
+      * destruct av; apply Hzero in H; exact H.
+      * destruct av as [|av']; [apply Hzero in H; exact H|].
+        destruct (cmatch c (lcode x)) eqn:Hc; [|apply Hzero in H; exact H].
+        match type of H with match ?X with _ => _ end = _ => destruct X as [z|] eqn:Hs end;
+          [|apply Hzero in H; exact H].
+        assert (z = (e, cs')) by congruence; subst z. apply IHw in Hs.
+        destruct Hs as (ls & Hle & Hav & Hw & Hdm & Hsp).
+        inversion Hdm; subst.
+        exists (S (length run) :: ls0). cbn [length]. repeat split; try lia.
+        -- replace (e - pos) with (S (e - S pos)) by lia. cbn [firstn].
+           match goal with Hx : _ = firstn _ _ |- _ => rewrite <- Hx end.
+           apply (dm_starG c (x :: run) r t ls0); auto.
+        -- cbn [spans_of] in *. now rewrite Nat.add_succ_r.
+    + (* StarL *)
+      assert (Hzero : forall w av pos, bt r w av pos g st cs = Some (e, cs') ->
+                exists ls, pos <= e /\ e - pos <= av /\ e - pos <= length w /\
+                           dm (StarL c :: r) (firstn (e - pos) w) ls /\
+                           spans_of (StarL c :: r) ls pos g st cs = Some (e, cs')).
+      { intros w0 av0 pos0 H0. apply IH in H0. destruct H0 as (ls & ? & ? & ? & Hdm & Hsp).
+        exists (0 :: ls); repeat split; try lia. apply (dm_starL c [] r _ ls); auto.
+        cbn [spans_of]. now rewrite Nat.add_0_r. }
+      revert av pos H. induction w as [|x w' IHw]; intros av pos H; rewrite bt_starL in H.
+      * match type of H with match ?X with _ => _ end = _ => destruct X as [z|] eqn:Hb end.
+        { assert (z = (e, cs')) by congruence; subst z. apply Hzero in Hb. exact Hb. }
+        destruct av; discriminate.
+      * match type of H with match ?X with _ => _ end = _ => destruct X as [z|] eqn:Hb end.
+        { assert (z = (e, cs')) by congruence; subst z. apply Hzero in Hb. exact Hb. }
+        destruct av as [|av']; [discriminate|].
+        destruct (cmatch c (lcode x)) eqn:Hc; [|discriminate].
+        apply IHw in H. destruct H as (ls & Hle & Hav & Hw & Hdm & Hsp). inversion Hdm; subst.
+        exists (S (length run) :: ls0). cbn [length]. repeat split; try lia.
+        -- replace (e - pos) with (S (e - S pos)) by lia. cbn [firstn].
+           match goal with Hx : _ = firstn _ _ |- _ => rewrite <- Hx end.
+           apply (dm_starL c (x :: run) r t ls0); auto.
+        -- cbn [spans_of] in *. now rewrite Nat.add_succ_r.
+    + rewrite bt_open in H. apply IH in H. destruct H as (ls & ? & ? & ? & Hdm & Hsp).
+      exists (0 :: ls). repeat split; try lia. constructor; auto. exact Hsp.
+    + rewrite bt_close in H. destruct st as [|[gi s0] st']; [discriminate|].
+      apply IH in H. destruct H as (ls & ? & ? & ? & Hdm & Hsp).
+      exists (0 :: ls). repeat split; try lia. constructor; auto. exact Hsp.
+Qed.
+
 (* parentheses never underflow the stack *)
 Fixpoint closes_ok (items : pattern) (depth : nat) : bool :=
   match items with
